@@ -339,3 +339,29 @@ where
     let s = serde_wasm_bindgen::Serializer::new().serialize_maps_as_objects(true);
     obj.serialize(&s)
 }
+
+/// Writes a compiled variable name so that it parses back to the same name: an index that
+/// evaluated to a negative number (`x_{i - 1}` with `i = 0` compiles to the name `x_-1`) is
+/// not a valid name fragment, so it is rendered in its expression form `x_{-1}`.
+pub fn render_variable_name(name: &str) -> String {
+    if !name.contains("_-") {
+        return name.to_string();
+    }
+    let mut out = String::with_capacity(name.len() + 2);
+    let mut rest = name;
+    while let Some(pos) = rest.find("_-") {
+        let (head, tail) = rest.split_at(pos);
+        out.push_str(head);
+        let digits = tail[2..]
+            .find(|c: char| !(c.is_ascii_digit() || c == '.'))
+            .unwrap_or(tail.len() - 2);
+        if digits == 0 {
+            out.push_str("_-");
+        } else {
+            out.push_str(&format!("_{{-{}}}", &tail[2..2 + digits]));
+        }
+        rest = &tail[2 + digits..];
+    }
+    out.push_str(rest);
+    out
+}
